@@ -55,6 +55,21 @@ func buildAndRun(c *Ctx, tag string, idx int, src string, target core.Target, va
 	core.WriteFile(f, src)
 	pr := progRun{Src: src, Dir: d}
 	pr.Compile = core.Compile(core.CompileOpts{Binary: bin, Libs: libs, Target: target, CPUSecs: 30}, f)
+	if pr.Compile.Proc.WallOut || pr.Compile.Proc.CPUOut {
+		// a watchdog ended the compilation (loaded machine, or a hang — which is C13's property):
+		// no verdict for the property under test
+		return pr, fmt.Errorf("compile watchdog fired (wall=%v cpu=%v) for %s", pr.Compile.Proc.WallOut, pr.Compile.Proc.CPUOut, f)
+	}
+	if !pr.Compile.Accepted() && pr.Compile.Crash == "" && len(core.Errors(pr.Compile.Diags)) == 0 {
+		// a failed build without any error diagnostic (assembler / linker / out-of-resources on a
+		// loaded machine) is retried once; whether such a silent failure is legitimate is C13's
+		// question, not a verdict on the program under test
+		again := core.Compile(core.CompileOpts{Binary: bin, Libs: libs, Target: target, CPUSecs: 30}, f)
+		c.R.Count("builds_retried_after_a_failure_without_diagnostics", 1)
+		if again.Accepted() {
+			pr.Compile = again
+		}
+	}
 	if !pr.Compile.Accepted() {
 		return pr, nil
 	}
